@@ -1,6 +1,122 @@
-// hooks for fast_fft (included into /repo/falcon-rust/src/fast_fft.rs as `mod verif` under
-// --cfg falcon_rust_verif).
+// hooks for fast_fft (included into /repo/falcon-rust/src/fast_fft.rs as `mod verif`).
+// Unit U-TAB: the constant tables and n^-1 constants, checked entry by entry with a symbolic
+// index (complete over the index range).  Arithmetic is done on u64 representatives, not with the
+// Felt operators, so these statements do not depend on U-FELT.
 include!(concat!(env!("FALCON_RUST_VERIF_DIR"), "/hooks/common.rs"));
 
+use crate::falcon_field::verif::rep;
+
+const QQ: u64 = 12289;
+
+fn t(k: usize) -> u64 {
+    rep(FELT_BITREVERSED_POWERS_1024[k]) as u64
+}
+fn ti(k: usize) -> u64 {
+    rep(FELT_BITREVERSED_POWERS_INVERSE_1024[k]) as u64
+}
+fn bitrev10(i: usize) -> usize {
+    let mut r = 0usize;
+    let mut b = 0;
+    while b < 10 {
+        r |= ((i >> b) & 1) << (9 - b);
+        b += 1;
+    }
+    r
+}
+/// base^e mod q for e < 1024, square-and-multiply over the 10 exponent bits
+fn powq(base: u64, e: usize) -> u64 {
+    let mut acc = 1u64;
+    let mut b = 10;
+    while b > 0 {
+        b -= 1;
+        acc = acc * acc % QQ;
+        if (e >> b) & 1 == 1 {
+            acc = acc * base % QQ;
+        }
+    }
+    acc
+}
+
+/// table exports for other units' native tools
+pub(crate) fn table(k: usize) -> u32 { t(k) as u32 }
+pub(crate) fn table_inv(k: usize) -> u32 { ti(k) as u32 }
+
 harnesses! {
+    /// every entry of both tables is a canonical residue
+    fn tab_wf(d) {
+        let k = d.usize();
+        vassume!(k < 1024);
+        assert!(t(k) < QQ, "C11.tab.wf: T[k] in [0,q)");
+        assert!(ti(k) < QQ, "C11.tab.wf: TI[k] in [0,q)");
+        vcover!(k == 1023, "reach: last entry");
+    }
+
+    /// the relations the forward transform consumes: T[0] = 1, T[2k]^2 = T[k], T[2k+1]^2 = -T[k]
+    fn tab_square_relations(d) {
+        let k = d.usize();
+        vassume!(k < 512);
+        assert!(t(0) == 1, "C11.tab.one: T[0] == 1");
+        assert!(t(2 * k) * t(2 * k) % QQ == t(k), "C11.tab.sq_even: T[2k]^2 == T[k]");
+        assert!((t(2 * k + 1) * t(2 * k + 1) + t(k)) % QQ == 0, "C11.tab.sq_odd: T[2k+1]^2 == -T[k]");
+        vcover!(k == 511, "reach: k = 511");
+        vcover!(k == 0, "reach: k = 0");
+    }
+
+    /// the inverse table is the entrywise inverse
+    fn tab_inverse_relation(d) {
+        let k = d.usize();
+        vassume!(k < 1024);
+        assert!(t(k) * ti(k) % QQ == 1, "C11.tab.inv: T[k] * TI[k] == 1");
+        vcover!(k == 1023, "reach: last entry");
+    }
+
+    /// C11 literally: T[i] = psi^bitrev10(i), TI[i] = psi^-bitrev10(i), psi = T[512] a primitive
+    /// 2048-th root of unity (psi^1024 = -1)
+    #[kani::unwind(11)]
+    fn tab_bitreversed_powers(d) {
+        let i = d.usize();
+        vassume!(i < 1024);
+        let psi = t(512);
+        let psi_inv = ti(512);
+        assert!(psi * psi_inv % QQ == 1, "C11.tab.psi_inv");
+        // psi^1024 == -1: psi^512 is T[1] by the statement below at i = 1; check directly too
+        let p512 = powq(psi, 512);
+        assert!(p512 * p512 % QQ == QQ - 1, "C11.tab.primitive: psi^1024 == -1");
+        let e = bitrev10(i);
+        assert!(t(i) == powq(psi, e), "C11.tab.powers: T[i] == psi^bitrev(i)");
+        assert!(ti(i) == powq(psi_inv, e), "C11.tab.powers_inv: TI[i] == psi^-bitrev(i)");
+        vcover!(i == 1023, "reach: last entry");
+        vcover!(i == 1, "reach: i = 1");
+    }
+
+    /// n^-1 constants
+    fn tab_ninv(d) {
+        let c: [(u64, Felt); 11] = [
+            (1, FELT_NINV_1), (2, FELT_NINV_2), (4, FELT_NINV_4), (8, FELT_NINV_8),
+            (16, FELT_NINV_16), (32, FELT_NINV_32), (64, FELT_NINV_64), (128, FELT_NINV_128),
+            (256, FELT_NINV_256), (512, FELT_NINV_512), (1024, FELT_NINV_1024),
+        ];
+        let j = d.usize();
+        vassume!(j < 11);
+        let (n, inv) = c[j];
+        assert!((rep(inv) as u64) < QQ, "C11.ninv.wf");
+        assert!(n * (rep(inv) as u64) % QQ == 1, "C11.ninv: n * NINV_n == 1");
+        vcover!(j == 10, "reach: n = 1024");
+    }
+
+    /// ifft_inplace's `match n` selects NINV_n for every power of two up to 1024 and nothing else
+    /// reaches the panic arm: checked through the real method on a polynomial of symbolic length
+    /// is done in Verus (U-NTT); here only that the selected constant is the right one.
+    fn tab_ninv_selected(d) {
+        let lg = d.usize();
+        vassume!(lg <= 10);
+        let n = 1usize << lg;
+        let ninv = match n {
+            1 => FELT_NINV_1, 2 => FELT_NINV_2, 4 => FELT_NINV_4, 8 => FELT_NINV_8,
+            16 => FELT_NINV_16, 32 => FELT_NINV_32, 64 => FELT_NINV_64, 128 => FELT_NINV_128,
+            256 => FELT_NINV_256, 512 => FELT_NINV_512, _ => FELT_NINV_1024,
+        };
+        assert!((n as u64) * (rep(ninv) as u64) % QQ == 1, "C11.ninv.by_n");
+        vcover!(lg == 10, "reach: 1024");
+    }
 }
